@@ -126,6 +126,32 @@ class Runner:
         ev.update(ok=True, exc="", pos="", msg="")
         return ev, obj
 
+    def ev_assign_literal(self, o, name, root):
+        """A string-literal attribute of a LIVE object (built with the literal left to its default) is assigned the deviating
+        string of the `lit` variant: "only accepts its literal" also on assignment."""
+        props = dict(pyside.fun(o["p"]))
+        if name not in props:
+            return None
+        bad = props.pop(name)
+        base = dict(o)
+        base["p"] = props
+        evc, obj = self.ev_construct(base, root)
+        if not evc["ok"]:
+            return None
+        ev = {"e": "Assign", "name": name, "o": o}
+        try:
+            a = self.pkg.attr_map(type(obj)).get(pyside.norm(name))
+            if a is None:
+                return None
+            setattr(obj, a.name, decode(bad))
+            ev.update(ok=True, exc="", pos="", msg="")
+        except BaseException as e:                 # noqa: BLE001
+            if isinstance(e, (KeyboardInterrupt, SystemExit, MemoryError)):
+                raise
+            n_, pos, text, _ = exc_info(e)
+            ev.update(ok=False, exc=n_, pos=pos, msg=text)
+        return ev
+
     def mutate_session(self, o, fr, cls, root):
         """An edge of the value graph as an assignment on a live object: build the object BEFORE the refinement,
         serialise it, assign the one top-level attribute the refinement changed, serialise again."""
@@ -261,7 +287,12 @@ class Runner:
         elif vk in ("intval", "lit"):
             ev, _ = self.ev_structure(w, cls, root)
             ev2, _ = self.ev_construct(o, root)
-            session(vk, [ev, ev2])
+            evs = [ev, ev2]
+            if vk == "lit":
+                ev3 = self.ev_assign_literal(o, var["name"], root)
+                if ev3:
+                    evs.append(ev3)
+            session(vk, evs)
         elif vk == "dropspecial":
             evs = []
             ev, obj = self.ev_structure(w, cls, root)
@@ -307,6 +338,10 @@ class Runner:
         elif sk in ("intval", "lit"):
             out.append(self.ev_structure(evs[0]["j"], cls, root)[0])
             out.append(self.ev_construct(evs[1]["o"], root)[0])
+            if len(evs) > 2 and evs[2]["e"] == "Assign":
+                ev3 = self.ev_assign_literal(evs[2]["o"], evs[2]["name"], root)
+                if ev3:
+                    out.append(ev3)
         elif sk == "reunstructure":
             ev1, obj1 = self.ev_construct(evs[0]["o"], root, share=True)
             out.append(ev1)
